@@ -427,9 +427,7 @@ def _replace_name(e, name, by):
                 return by
             return n
 
-    import copy
-
-    return norm(R().visit(copy.deepcopy(e)))
+    return norm(R().visit(ast.parse(src(e), mode="eval").body))
 
 
 def _guarded_by_none(g, node, pk_text, fi):
